@@ -61,16 +61,22 @@ def parser_tie(res, seed, n, dist):
         res.add_broken('correspondence', 'pd (parser dump) no longer builds against /repo/derive/src/parse.rs', ' | '.join(l for l in out.splitlines() if l.startswith('error'))[:400])
         return
     drv = build_ocaml(res, 'parse', 'Parse')
-    impl = {}
+    impl, impl_print, src_tokens = {}, {}, {}
     for l in open(dump):
         m = re.match(r'FIELD (\S+)\.f TYPE (.*)', l.strip())
         if m: impl[m.group(1)] = 'UNSUP' if 'UnsupCat' in m.group(2) or 'as)' in m.group(2) else m.group(2)
-    model = {}
+        m = re.match(r'FIELD (\S+)\.f PRINT (.*)', l.strip())
+        if m: impl_print[m.group(1)] = m.group(2).strip()
+        m = re.match(r'FIELD (\S+)\.f TOKENS (.*)', l.strip())
+        if m: src_tokens[m.group(1)] = m.group(2).strip()
+    model, model_print = {}, {}
     if drv:
         rc, lines = run_lines([drv, dump], timeout=600)
         for l in lines:
             m = re.match(r'FIELD (\S+)\.f TYPE (.*)', l)
             if m: model[m.group(1)] = m.group(2)
+            m = re.match(r'FIELD (\S+)\.f PRINT (.*)', l)
+            if m: model_print[m.group(1)] = m.group(2).strip()
     nd = 0
     for name, t, ok in types:
         i, mo = impl.get(name), model.get(name)
@@ -85,6 +91,22 @@ def parser_tie(res, seed, n, dist):
             nd += 1
             if nd == 1:
                 res.add_broken('correspondence', 'Coq model of next_type differs from derive/src/parse.rs', f"type `{t}`: model {mo[:200]} | impl {i[:200]}")
+    # the printer: (a) oracle on the implementation alone: a supported type is printed back as the tokens that were written;
+    #              (b) the extracted model of Type::full against the real one, wherever the model parses the type completely
+    npr = 0
+    for name, t, ok in types:
+        ip, mp, st = impl_print.get(name), model_print.get(name), src_tokens.get(name)
+        if ip is None or st is None: continue
+        if ok and impl.get(name) not in ('PANIC', 'UNSUP', None) and ip != st:
+            res.oracle_fail.append({'group': 'print', 'case': f"struct S<'a, T, U, const N: usize> {{ f: {t} }}",
+                                    'what': f"ORACLE-FAIL the supported field type `{t}` is printed back by Type::full() as different tokens: {ip[:200]}", 'signature': f"printer changes {t}"})
+        if drv and mp not in (None, '-') and impl.get(name) not in ('PANIC', None):
+            npr += 1
+            if mp != ip:
+                nd += 1
+                if nd == 1:
+                    res.add_broken('correspondence', 'Coq model of the type printer (Type::full) differs from derive/src/parse.rs', f"type `{t}`: model {mp[:200]} | impl {ip[:200]}")
+    res.coverage['printer_types_compared'] = npr
     res.coverage['parser_types_compared'] = len([1 for n_, _, _ in types if n_ in impl and n_ in model])
     return len(types)
 
@@ -141,7 +163,7 @@ def main():
     res.coverage['input_distribution'] = dist
     res.samples = [decls[0][1][:600], decls[1][1][:400]]
     res.rule = ("(1) generated field types (paths, nested generics, references with and without lifetimes, tuples incl. unit and 1-tuples, arrays with literal / named length, never, lifetime arguments, raw identifiers, "
-                "and out-of-fragment forms dyn / fn / <T as X>::Y / && ) are parsed by /repo's own parser (proc-macro `pd` including derive/src/parse.rs by path) and by the extracted Coq model; results compared; "
+                "and out-of-fragment forms dyn / fn / <T as X>::Y / && ) are parsed AND printed back (Type::full, re-lexed) by /repo's own code (proc-macro `pd` including derive/src/parse.rs by path) and by the extracted Coq model; results compared; a supported type must print back as the tokens written; "
                 "(2) generated DECLARATIONS (struct and field visibility, generic type / lifetime / const parameters with inline bounds, where clauses and defaults, doc comments and foreign attributes, raw identifier fields, "
                 "every difference attribute in several spellings, expose, enums with unit / tuple / struct variants) are compiled against /repo and each runs a round-trip + frame + diff_ref + self-diff test; "
                 "(3) each known-bad construct is compiled on its own. The compile step is a TEST, not a proof. non-trivial = distinct declarations")
